@@ -84,6 +84,13 @@ def t4(model: Model, rep: Report):
             while v[0] == "var" and len(v) == 4:
                 v = v[3]
             if not (v[0] == "new" and v[1] == "GlobalDurationStrategy"):
+                if C.name in DURATION_KIND:
+                    # a class of the specification table that no longer follows the global setting of its kind (e.g. a fixed zero length): its layer partners
+                    # last longer than it does, and a barrier that follows it in relation order starts while they are still running
+                    n += 1
+                    rep.fail("C10.T4", f"{C.name}[duration kind]", C.loc, found=show(v)[:80], required=f"GlobalDurationStrategy({DURATION_KIND[C.name]})",
+                             what=f"{C.name} no longer lasts for the {DURATION_KIND[C.name]} setting ({show(v)[:60]}): operations of one layer have different lengths and the "
+                                  "barrier that closes the layer follows whichever was added last", detail="kind")
                 continue
             k = dict(v[2]).get("key")
             key = k[2] if k is not None and k[0] == "enum" else None
